@@ -97,3 +97,10 @@ func ZZ_C04_psim() {
 // ZZ_C04_loop: the metering clauses of the block-engine loop (shared body with ZZ_C01_loop).
 //zz:workers=16 paths=200000
 func ZZ_C04_loop() { zzLoop(2) }
+
+// ZZ_C04_transfer_gas: the one host call with a variable charge. The obligations are those of
+// ZZ_C08_transfer (gas after a successful transfer is the gas before minus 10 minus the
+// transfer gas, an unpayable transfer gas - including values of 2^63 and above - ends in
+// out-of-gas with nothing left, error returns charge 10): the gas counter never grows.
+//zz:workers=16
+func ZZ_C04_transfer_gas() { ZZ_C08_transfer() }
